@@ -54,7 +54,7 @@ SPEC = {
         "thorough": {"shards": 16, "budget_s": 600, "extra": {"n-events": 2600, "max-cases": 60000}},
     },
     "floors": {
-        "quick": {
+        "quick": {"parses_through_short_read_reader": 5000, 
             # time-budgeted on a shared machine: floors are ~1/3 of what a quiet 16-core run observes
             "evaluations": 600_000, "distinct_nontrivial": 1500,
             "tx_v5": 1200, "tx_v6": 800, "tx_v4": 700, "tx_v3": 250, "tx_v1": 80, "tx_v2": 80, "tx_v2hi": 80,
